@@ -487,6 +487,12 @@ def _frames_verdict(types, trans, prefix_ok):
 
 
 def run_case(case) -> CaseResult:
+    if isinstance(case, dict) and case.get('tier') == 'xfer':
+        return _run_xfer_case(case)
+    return _run_track_case(case)
+
+
+def _run_track_case(case) -> CaseResult:
     res = CaseResult()
     norm = _sanitise(case)
     ops = norm['ops']
@@ -778,6 +784,295 @@ def run_case(case) -> CaseResult:
 
 
 # ---------------------------------------------------------------------------
+# second tier ('tier': 'xfer'): the TRANSFER reason comes from the real TransferManager of a full client, the other
+# reasons from the user API, across server disconnects and re-logins
+
+XFER_SLOTS = 3
+XFER_GAPS = [0.0, 0.01, 0.06, 0.3, 1.5, 1.5, 3.0]
+XFER_SETTLE = 1.5            # a checkpoint needs this much quiet time (management cycle <= 0.25 s, AddUser round trip)
+XFER_LOGIN_SETTLE = 22.0     # a worker started while disconnected reaches the new session with its next retry (<= 20 s)
+XFER_OPS = ['add', 'abort', 'remove', 'pause', 'queue', 't', 'u', 'x', 'login']
+XFER_MODES = ['virgin', 'paused', 'queued']
+TRANSFER_BIT = 2
+
+
+@st.composite
+def xfer_strategy(draw):
+    ops = []
+    slots = {}           # slot -> user (generator-side plausibility only)
+    logged_in = True
+    n = draw(st.integers(2, 10))
+    for _ in range(n):
+        w = draw(st.integers(0, 19))
+        gap = draw(st.sampled_from(XFER_GAPS))
+        if w < 5 or not slots:
+            free = [k for k in range(XFER_SLOTS) if k not in slots]
+            if free:
+                k = draw(st.sampled_from(free))
+                u = draw(st.integers(0, 1))
+                slots[k] = u
+                ops.append({'op': 'add', 'slot': k, 'u': u, 'mode': draw(st.sampled_from(XFER_MODES)), 'gap': gap})
+                continue
+        if w < 8 and slots:
+            ops.append({'op': draw(st.sampled_from(['abort', 'abort', 'pause', 'queue'])),
+                        'slot': draw(st.sampled_from(sorted(slots))), 'gap': gap})
+        elif w < 10 and slots:
+            k = draw(st.sampled_from(sorted(slots)))
+            del slots[k]
+            ops.append({'op': 'remove', 'slot': k, 'gap': gap})
+        elif w < 14:
+            ops.append({'op': draw(st.sampled_from(['t', 't', 'u'])), 'u': draw(st.integers(0, 1)),
+                        'f': draw(st.sampled_from([1, 4])), 'gap': gap})
+        elif logged_in and w < 18:
+            logged_in = False
+            ops.append({'op': 'x', 'k': draw(st.integers(0, 1)), 'gap': gap})
+        elif not logged_in:
+            logged_in = True
+            ops.append({'op': 'login', 'gap': gap})
+        else:
+            ops.append({'op': 'u', 'u': draw(st.integers(0, 1)), 'f': draw(st.sampled_from([1, 4])), 'gap': gap})
+    return {'tier': 'xfer', 'lat': draw(st.sampled_from([0.001, 0.02])), 'ops': ops}
+
+
+def _sanitise_xfer(case):
+    ops = []
+    raw = case.get('ops')
+    for o in (raw if isinstance(raw, list) else [])[:12]:
+        if not isinstance(o, dict) or o.get('op') not in XFER_OPS:
+            continue
+        op = {'op': o['op'], 'gap': _num(o.get('gap', 0.0), 0.0, 5.0, 0.0),
+              'slot': _num(o.get('slot', 0), 0, 10 ** 6, 0, int) % XFER_SLOTS,
+              'u': _num(o.get('u', 0), 0, 10 ** 6, 0, int) % len(USERS)}
+        if op['op'] == 'add':
+            op['mode'] = o.get('mode') if o.get('mode') in XFER_MODES else 'paused'
+        elif op['op'] in 'tu':
+            op['f'] = 4 if _num(o.get('f', 1), 0, 10 ** 6, 1, int) & 4 else 1      # REQUESTED or FRIEND, never TRANSFER
+        elif op['op'] == 'x':
+            op['k'] = _num(o.get('k', 0), 0, 10 ** 6, 0, int) % 2                  # eof | reset (no write failure)
+        ops.append(op)
+    return {'lat': _num(case.get('lat', 0.02), 0.0005, 0.05, 0.02), 'ops': ops}
+
+
+def _run_xfer_case(case) -> CaseResult:
+    res = CaseResult()
+    norm = _sanitise_xfer(case)
+    ops = norm['ops']
+    if not ops:
+        return res
+    from aioslsk.exceptions import InvalidStateTransition
+    from aioslsk.protocol.messages import AddUser, RemoveUser
+    from aioslsk.transfer.model import Transfer, TransferDirection
+    from aioslsk.user.model import TrackingFlag
+
+    lat = norm['lat']
+    found = []          # (kind, detail)
+    labels = set()
+    info = {'checkpoints': 0, 'errors': []}
+
+    async def main(world):
+        loop = world.loop
+        server = world.server
+        server.listener.latency = lat
+        client = await world.start_client(simworld.mk_settings('me'))
+        um, tm = client.users, client.transfers
+        await asyncio.sleep(1.0)
+
+        api = [0, 0]                 # user API reasons since the tracking state was last dropped
+        slots = {}                   # slot -> Transfer
+        removed_unfinished = set()   # users that had an unfinished transfer removed
+        blamed = set()               # users with a reported violation: later observations are consequences
+        logged_in = True
+        login_time = loop.time()
+        quiet_since = loop.time()
+
+        def session_frames(name):
+            cur = len(server.sessions) - 1
+            out = []
+            for t, idx, m in server.frames:
+                if idx == cur and isinstance(m, (AddUser.Request, RemoveUser.Request)) and m.username == name:
+                    out.append((round(t, 4), 'A' if isinstance(m, AddUser.Request) else 'R'))
+            return out
+
+        def checkpoint(where):
+            info['checkpoints'] += 1
+            cur = len(server.sessions) - 1
+            for u_idx, name in enumerate(USERS):
+                if name in blamed:
+                    continue
+                mine = [t for t in tm.transfers if t.username == name]
+                unfinished = [t for t in mine if not t.is_finalized()]
+                reasons = api[u_idx] | (TRANSFER_BIT if unfinished else 0)
+                flags = um.get_tracking_flags(name).value
+                state = um.get_tracking_state(name).value
+                frames = session_frames(name)
+                types = [k for _, k in frames]
+                ctx = '%s at %s (t=%.3f, session #%d): transfers %s, user-API reasons %d, get_tracking_flags=%d, ' \
+                      'state=%s, AddUser/RemoveUser on this session %s' % (
+                          name, where, loop.time(), cur, [(t.remote_path[-5:], t.state.VALUE.name) for t in mine],
+                          api[u_idx], flags, state, frames)
+                if flags != reasons:
+                    blamed.add(name)
+                    diff = flags ^ reasons
+                    if diff == TRANSFER_BIT and unfinished:
+                        found.append(('C15/xfer:transfer-reason-missing:%s' % (
+                            'after-relogin' if cur > 0 else 'first-session'), ctx))
+                    elif diff == TRANSFER_BIT:
+                        found.append(('C15/xfer:transfer-reason-kept:%s' % (
+                            'after-remove' if name in removed_unfinished else 'other'), ctx))
+                    else:
+                        found.append(('C15/xfer:flags-differ', ctx))
+                    continue
+                alternating = all(k == ('A' if i % 2 == 0 else 'R') for i, k in enumerate(types))
+                tracked_on_server = bool(types) and types[-1] == 'A'
+                if not alternating:
+                    blamed.add(name)
+                    found.append(('C15/xfer:unexpected-frame:%s' % (
+                        'AddUser' if any(a == b == 'A' for a, b in zip(types, types[1:])) else 'RemoveUser'), ctx))
+                elif tracked_on_server != bool(reasons):
+                    blamed.add(name)
+                    found.append(('C15/xfer:%s' % ('not-tracked-on-current-session' if reasons
+                                                   else 'still-tracked-on-current-session'), ctx))
+                elif (state == 'tracked') != bool(reasons):
+                    blamed.add(name)
+                    found.append(('C15/xfer:state-%s-with-reasons-%d' % (state, 1 if reasons else 0), ctx))
+                if reasons & TRANSFER_BIT and reasons != TRANSFER_BIT:
+                    labels.add('transfer-and-api-reason')
+                if reasons == TRANSFER_BIT and cur > 0:
+                    labels.add('transfer-reason-only-after-relogin')
+
+        async def lib(what, coro):
+            try:
+                await coro
+            except InvalidStateTransition:
+                labels.add('refused:' + what)          # documented refusal
+            except Exception as exc:
+                info['errors'].append((what, type(exc).__name__, repr(exc)[:200]))
+
+        for i, op in enumerate(ops):
+            kind = op['op']
+            gap = op['gap']
+            if kind == 'add':
+                if op['slot'] not in slots:
+                    tr = Transfer(USERS[op['u']], '@@abc\\music\\f%d.mp3' % op['slot'], TransferDirection.DOWNLOAD)
+                    slots[op['slot']] = tr
+                    await lib('add', tm.add(tr))
+                    if op['mode'] == 'paused':
+                        await lib('pause', tm.pause(tr))
+                    elif op['mode'] == 'queued':
+                        await lib('queue', tm.queue(tr))
+                    labels.add('add:' + op['mode'])
+            elif kind in ('abort', 'pause', 'queue'):
+                tr = slots.get(op['slot'])
+                if tr is not None:
+                    await lib(kind, getattr(tm, kind)(tr))
+                    labels.add(kind)
+            elif kind == 'remove':
+                tr = slots.pop(op['slot'], None)
+                if tr is not None:
+                    if not tr.is_finalized():
+                        removed_unfinished.add(tr.username)
+                        labels.add('remove-unfinished')
+                    await lib('remove', tm.remove(tr))
+            elif kind in 'tu':
+                flag = TrackingFlag(op['f'])
+                if kind == 't':
+                    api[op['u']] |= op['f']
+                    await lib('track_user', um.track_user(USERS[op['u']], flag))
+                else:
+                    api[op['u']] &= ~op['f']
+                    await lib('untrack_user', um.untrack_user(USERS[op['u']], flag))
+            elif kind == 'x':
+                if logged_in:
+                    logged_in = False
+                    api[:] = [0, 0]         # everything is dropped with the connection
+                    server.close_session(kind=DISC_KINDS[op['k']])
+                    labels.add('disconnect:' + DISC_KINDS[op['k']])
+                    gap = max(gap, 0.3)     # the close is processed one latency later: no calls inside that window
+            elif kind == 'login':
+                if not logged_in:
+                    await client.network.connect_server()
+                    await client.login()
+                    logged_in = True
+                    login_time = loop.time()
+                    labels.add('relogin')
+                    gap = max(gap, XFER_LOGIN_SETTLE)
+            quiet_since = loop.time()
+            if gap > 0:
+                await asyncio.sleep(gap)
+            if logged_in and gap >= XFER_SETTLE and loop.time() - login_time >= (
+                    XFER_LOGIN_SETTLE if len(server.sessions) > 1 else XFER_SETTLE):
+                checkpoint('op #%d %s' % (i, kind))
+
+        if not logged_in:
+            await client.network.connect_server()
+            await client.login()
+            login_time = loop.time()
+            labels.add('relogin')
+        wait = max(XFER_SETTLE + 0.5, (XFER_LOGIN_SETTLE if len(server.sessions) > 1 else 0.0) - (loop.time() - login_time))
+        await asyncio.sleep(wait)
+        checkpoint('end')
+        info['loop_errors'] = list(loop.errors)
+        try:
+            await asyncio.wait_for(client.stop(), 30.0)
+        except Exception:
+            pass
+
+    simworld.run_world(main)
+    for kind, detail in found:
+        res.violate(kind, detail)
+    for what, exc_type, text in info['errors']:
+        res.violate('C15/xfer:unexpected-exception:%s@%s' % (exc_type, what), text)
+    for e in info.get('loop_errors', []):
+        res.violate('C15/xfer:loop-error:%s' % e.get('exc_type'), str(e)[:400])
+        break
+    res.nontrivial = 'relogin' in labels or 'transfer-and-api-reason' in labels or 'remove-unfinished' in labels
+    res.label('tier:xfer', *sorted(labels))
+    return res
+
+
+def _enumerated_xfer_cases():
+    out = []
+    for lat in (0.001, 0.02):
+        for k in (0, 1):
+            for mode in XFER_MODES:
+                # unfinished transfer survives a disconnect: TRANSFER must be announced again on the new session
+                out.append({'tier': 'xfer', 'lat': lat, 'ops': [
+                    {'op': 'add', 'slot': 0, 'u': 0, 'mode': mode, 'gap': 1.5},
+                    {'op': 'x', 'k': k, 'gap': 1.5},
+                    {'op': 'login', 'gap': 0.0},
+                    {'op': 'abort', 'slot': 0, 'gap': 1.5}]})
+                # ... together with a user-API reason that is taken away after the re-login
+                out.append({'tier': 'xfer', 'lat': lat, 'ops': [
+                    {'op': 't', 'u': 0, 'f': 1, 'gap': 0.06},
+                    {'op': 'add', 'slot': 0, 'u': 0, 'mode': mode, 'gap': 1.5},
+                    {'op': 'add', 'slot': 1, 'u': 1, 'mode': 'paused', 'gap': 0.0},
+                    {'op': 'x', 'k': k, 'gap': 0.3},
+                    {'op': 't', 'u': 0, 'f': 4, 'gap': 0.3},
+                    {'op': 'login', 'gap': 0.0},
+                    {'op': 'u', 'u': 0, 'f': 4, 'gap': 1.5},
+                    {'op': 'abort', 'slot': 0, 'gap': 1.5},
+                    {'op': 'abort', 'slot': 1, 'gap': 1.5}]})
+    for mode in XFER_MODES:
+        for gap in (0.0, 0.06, 1.5):
+            # abort -> reason dropped; re-queue -> reason back; two transfers of one user: reason stays until the last
+            out.append({'tier': 'xfer', 'lat': 0.02, 'ops': [
+                {'op': 'add', 'slot': 0, 'u': 0, 'mode': mode, 'gap': gap},
+                {'op': 'add', 'slot': 1, 'u': 0, 'mode': 'paused', 'gap': 1.5},
+                {'op': 'abort', 'slot': 0, 'gap': 1.5},
+                {'op': 'abort', 'slot': 1, 'gap': 1.5},
+                {'op': 'queue', 'slot': 1, 'gap': 1.5}]})
+            # remove of an unfinished / of an already aborted transfer
+            out.append({'tier': 'xfer', 'lat': 0.02, 'ops': [
+                {'op': 'add', 'slot': 0, 'u': 0, 'mode': mode, 'gap': 1.5},
+                {'op': 'remove', 'slot': 0, 'gap': gap}]})
+            out.append({'tier': 'xfer', 'lat': 0.02, 'ops': [
+                {'op': 'add', 'slot': 0, 'u': 0, 'mode': mode, 'gap': 1.5},
+                {'op': 'abort', 'slot': 0, 'gap': gap},
+                {'op': 'remove', 'slot': 0, 'gap': 1.5}]})
+    return out
+
+
+# ---------------------------------------------------------------------------
 # enumerations
 
 def _enumerated_cases():
@@ -828,9 +1123,10 @@ def _enumerated_cases():
 
 
 def run_shard(ctx):
-    ctx.enumerate(_enumerated_cases())
+    ctx.enumerate(_enumerated_cases() + _enumerated_xfer_cases())
     n = 700 if ctx.tier == 'quick' else 20000
     ctx.explore(case_strategy(), n)
+    ctx.explore(xfer_strategy(), 150 if ctx.tier == 'quick' else 4000, salt=1)
 
 
 MANIFEST_ENTRY = {
